@@ -42,6 +42,13 @@ func InitVisited(ctx context.Context) context.Context {
 	return ctx
 }
 
+// WithFreshVisited returns a context with a new, empty visited set. Sub-checks
+// whose result is combined non-monotonically (operands of an intersection or a
+// negation) must not share cycle-detection state with their siblings.
+func WithFreshVisited(ctx context.Context) context.Context {
+	return context.WithValue(ctx, visitedMapKey, newStringSet())
+}
+
 func CheckAndAddVisited(ctx context.Context, current relationtuple.Subject) (context.Context, bool) {
 	set, ok := ctx.Value(visitedMapKey).(*stringSet)
 	if !ok {
